@@ -762,4 +762,55 @@ mod both {
             std::mem::forget(p);
         }
     }
+    #[cfg(kani)]
+    async_harness! {
+        [kani::unwind(6),
+         kani::stub(async_channel::Sender::try_send, achan::try_send),
+         kani::stub(futures_util::async_await::shuffle, shuffle_one)]
+        fn c15_async_ring_batches() {
+            // buffer_items 0..2 on the async side (AsyncRingStripe::push -> AsyncLFUPolicy::push): two
+            // lookups of arbitrary keys on an open cache; a batch is handed to the policy exactly when
+            // the stripe reaches buffer_items (0 behaves like 1), holds exactly the looked-up keys in
+            // order, and is counted as kept once per key
+            let _now = clock::set_nd(1000, th::SECS_MAX);
+            let store = store_from(None, None, None, NdValidator::new(Some(true)));
+            let capa = nd::any_usize_in(0, 2);
+            let (cache, p) = park_async_cache(store, [None, None, None], nd::any_bool(), true, capa);
+            let c = if capa == 0 { 1 } else { capa };
+            let k1 = nd::any_u64();
+            let k2 = nd::any_u64();
+            let r1 = matches!(poll_once(cache.get(&k1)), Some(None));
+            vassert!(r1, "a lookup of an absent key completes without suspending and misses");
+            vassert!(achan::batches() == 1 / c, "after one lookup a batch has been handed over iff buffer_items <= 1");
+            let r2 = matches!(poll_once(cache.get(&k2)), Some(None));
+            vassert!(r2, "the second lookup completes without suspending and misses");
+            vassert!(achan::batches() == 2 / c, "after two lookups: two batches of one (buffer_items <= 1) or one batch of two");
+            match achan::take_batch::<crate::verif_env::KVec<u64>>() {
+                Some(b) => {
+                    vassert!(b.len() == c && b[0] == k1, "the first batch starts with the first looked-up key and holds buffer_items keys");
+                    if c == 2 {
+                        vassert!(b[1] == k2, "a batch of two holds both keys in lookup order");
+                    }
+                    std::mem::forget(b);
+                }
+                None => vassert!(false, "a batch was queued"),
+            }
+            if c == 1 {
+                match achan::take_batch::<crate::verif_env::KVec<u64>>() {
+                    Some(b) => {
+                        vassert!(b.len() == 1 && b[0] == k2, "the second batch holds exactly the second key");
+                        std::mem::forget(b);
+                    }
+                    None => vassert!(false, "a second batch was queued"),
+                }
+            }
+            vassert!(achan::batches() == 0, "nothing else was handed over");
+            vassert!(mrec::get(&p.metrics, MetricType::KeepGets) == 2 && mrec::get(&p.metrics, MetricType::DropGets) == 0, "every handed-over lookup is counted as kept exactly once, never as dropped");
+            vassert!(achan::len(&cache.insert_buf_tx) == 0, "lookups queue nothing on the insert buffer");
+            vcover!(capa == 0, "buffer_items 0");
+            vcover!(capa == 2, "buffer_items 2: one batch of two");
+            std::mem::forget(cache);
+            std::mem::forget(p);
+        }
+    }
 }
